@@ -2,6 +2,8 @@ import Gpc.Proofs.Printf
 import Gpc.Proofs.Print
 import Gpc.Proofs.FloatPlan
 import Gpc.Proofs.FloatSpecWF
+import Gpc.Proofs.FmtCount
+import Gpc.Proofs.FmtArgs
 /-!
 # C09 — formatted output equals the C standard's
 
@@ -236,6 +238,37 @@ example : BodyWF (ascii "3.14") ∧ BodyWF (ascii "0.001000") ∧ BodyWF (ascii 
 /-- and a text with a leading zero in a long integer part is not (its first block would be re-spelled) -/
 example : ¬ BodyWF (ascii "007") := by
   decide
+
+/-- **C09, print family: an embedded format string takes exactly the objects the formatter consumes.**
+`gp_count_fmt_specs` (one per `%` that is not `%%`, plus every `*` before the conversion character) equals
+`argsNeeded`, the number of arguments the formatter's own scanner (`splitLiteral` / `scanSpec`: flags, width or
+`*`, `.precision` or `.*`, length modifier, conversion character) takes — for every format that scanner accepts
+with conversion characters from `c s S d i o x X u f F e E g G p` and `%` only as `%%`. -/
+theorem count_fmt_specs_eq_args_consumed (fmt : Bytes) (fuel k : Nat) (h : argsNeeded fuel fmt = some k) :
+    countFmtSpecs fmt (fmt.length + 1) = k :=
+  countFmtSpecs_eq_argsNeeded fmt fuel k h
+
+/-- **C09, the formatter looks at exactly the arguments it needs**: cutting the argument list after any
+`m ≥ argsNeeded` arguments changes nothing — text, returned length or rejection (`resolve` takes one `int` per
+`*`, then one argument per conversion other than `%%`). -/
+theorem formatter_uses_exactly_its_arguments (fuel : Nat) (p : PF) (fmt : Bytes) (args : List Arg) (k m : Nat)
+    (h : argsNeeded fuel fmt = some k) (hm : k ≤ m) :
+    vsnprintf fuel p fmt (args.take m) = vsnprintf fuel p fmt args :=
+  vsnprintf_take fuel p fmt args k m h hm
+
+/-- **C09, print family: the objects after an embedded format string are split exactly**: the first
+`argsNeeded` of them are the format's arguments (and it would print the same if handed all of them), the rest
+stay for the print loop. -/
+theorem print_format_objects_split (p : PF) (fmt : Bytes) (rest : List Obj) (k : Nat)
+    (h : argsNeeded (fmt.length + 1) fmt = some k) :
+    (splitFmtArgs fmt rest).1 = (rest.map (·.val)).take k ∧ (splitFmtArgs fmt rest).2 = rest.drop k ∧
+    writeFormat p fmt (splitFmtArgs fmt rest).1 = writeFormat p fmt (rest.map (·.val)) := by
+  obtain ⟨h1, h2⟩ := splitFmtArgs_exact fmt rest k h
+  exact ⟨h1, h2, by rw [h1]; exact writeFormat_take p fmt _ k h⟩
+
+/-- non-vacuity: a format with starred width and precision, a length modifier, `%%` and literal text -/
+example : argsNeeded 20 (ascii "%*.*f and %-5ld%% %s") = some 5 ∧
+    countFmtSpecs (ascii "%*.*f and %-5ld%% %s") 21 = 5 := by decide
 
 /-- **C09, print family.**  Each argument of the type-directed print calls is rendered as its default
 conversion: integers as `%d` / `%u` of their width, floating point as `%g`, characters as `%c`,
